@@ -58,15 +58,26 @@ def scenarios(c):
         S.append({'kind': 'sumcheck', 'alg': alg, 'files': [{'content': [9]}, {'content': [7], 'remove': 1}]})
         S.append({'kind': 'sumcheck', 'alg': alg, 'files': [{'content': [9]}], 'bad_lines': ['not a checksum line', 'abcd  short', 'g' * 64 + '  f0.bin']})
         S.append({'kind': 'sumcheck', 'alg': alg, 'files': [{'content': [], 'modify': 1}]})
+    # asconsum with a read error at the k-th read of the data file (injected with strace: the tool reads through stdio)
+    for alg in 'haxy':
+        for sz in (100, BUF + BUF // 2):
+            for k in (1, 2, 3, 4):
+                for chk in (0, 1):
+                    if alg != 'h' and (k > 3 or sz == 100) and c.tier != 'thorough': continue
+                    S.append({'kind': 'sumfault', 'alg': alg, 'content': list(pattern(rng, sz, 'rand')), 'k': k, 'check': chk}); c.distinct([('sumfault', alg, sz, k, chk)])
     return S
 
 def run(c):
     c.mc_bg('SysTools')
     c.mc_bg('SysTools', 'SysToolsNeg', must_fail=True)      # the "!safe_file_write()" convention with -1 on error must be refuted
     c.assumptions += ['the process model abstracts cryptography (authentic / modified flags) and the 8192-round PBKDF2; the real binaries are judged on exit status, existence of the output file and byte equality of the round trip',
-                      'I/O faults are injected with an LD_PRELOAD shim at the k-th open/read/write/getrandom for every k the run reaches (error, short write then ENOSPC, EINTR once); asconsum reads through stdio, its reads are not interposed',
+                      'I/O faults are injected with an LD_PRELOAD shim at the k-th open/read/write/getrandom for every k the run reaches (error, short write then ENOSPC, EINTR once); asconsum reads through stdio, so its read errors are injected with strace (inject=read:error=EIO:when=k on the data file)',
                       'a modified or truncated file verifying by chance has probability 2^-128']
     S = scenarios(c)
+    rc, out = sh(['strace', '-o', '/dev/null', '-e', 'trace=read', 'true'], timeout=30)
+    if rc != 0:      # ptrace not available here: the stdio read-fault scenarios cannot be run (said so in the evidence)
+        S = [s for s in S if s['kind'] != 'sumfault']
+        c.assumptions.append('strace could not attach in this environment: asconsum read-error scenarios were skipped in this run')
     c.tv_tools(S, 'rel', 'tools', per_shard=30)
     c.cov['exhaustive'] = True
     c.cov['rule'] = 'scenario = (file size, password) round trip / bit flip at a byte / truncation at a length / fault at the k-th call of an operation; distinct = those tuples'
